@@ -4,7 +4,9 @@
 (* (worker_driver with job operations, simulated children, virtual time):  *)
 (* after the handler asks for a quit the main task ends promptly (abort)   *)
 (* or within the grace periods then in effect plus the quit's own          *)
-(* (graceful), the quit is really performed, and no child survives.        *)
+(* (graceful), the quit is really performed, and no child survives.  A     *)
+(* grace period is in effect from the moment its signal is sent until its  *)
+(* process has ended; one whose process has ended early owes nothing.      *)
 (***************************************************************************)
 EXTENDS Integers, Sequences, FiniteSets, TLC, Json, IOUtils
 
@@ -16,7 +18,8 @@ Graceful == {"stop_with_signal", "restart_with_signal", "try_restart_with_signal
 
 InitM == [ t |-> 0,
            alive |-> {},        \* children spawned and neither reaped nor dropped
-           pend |-> <<>>,       \* graceful operations issued: [job, until]
+           gr |-> <<>>,         \* per job: [until |-> when the armed grace timer runs out (-1: none),
+                                \*           queued |-> grace periods of graceful operations waiting behind it]
            asked |-> -1, manner |-> 0, grace |-> 0, bound |-> 0,
            performed |-> FALSE, mainEnd |-> -1,
            bad |-> {} ]
@@ -25,25 +28,41 @@ Bad(m, why) == [m EXCEPT !.bad = @ \cup {why}]
 
 JobOf(n) == n \div 100
 Max0(S) == IF S = {} THEN 0 ELSE CHOOSE x \in S : \A y \in S : y <= x
-SumFor(m, j, tq) ==
-    LET idx == {i \in DOMAIN m.pend : m.pend[i].job = j /\ m.pend[i].until > tq}
-        RECURSIVE Sum(_)
-        Sum(S) == IF S = {} THEN 0
-                  ELSE LET i == CHOOSE i \in S : TRUE IN (m.pend[i].until - tq) + Sum(S \ {i})
-    IN  Sum(idx)
+NoGrace == [until |-> -1, queued |-> <<>>]
+GraceOf(m, j) == IF j \in DOMAIN m.gr THEN m.gr[j] ELSE NoGrace
+RECURSIVE SumSeq(_)
+SumSeq(q) == IF q = <<>> THEN 0 ELSE Head(q) + SumSeq(Tail(q))
+\* what job j may still take at time tq: the remainder of its armed timer and every grace period queued
+\* behind it (an upper bound: a queued graceful operation that finds nothing running takes no time)
+OwedBy(m, j, tq) ==
+    LET g == GraceOf(m, j) IN (IF g.until > tq THEN g.until - tq ELSE 0) + SumSeq(g.queued)
+
+\* a graceful operation on job j: it arms the timer now if the job has a live process and nothing is
+\* pending before it; otherwise it waits (or will turn out to be a no-op)
+OnGraceful(m, j, t, grace) ==
+    LET g == GraceOf(m, j)
+        live == \E n \in m.alive : JobOf(n) = j
+        g2 == IF live /\ g.until < t /\ g.queued = <<>> THEN [g EXCEPT !.until = t + grace]
+              ELSE [g EXCEPT !.queued = Append(@, grace)]
+    IN  [m EXCEPT !.gr = (j :> g2) @@ @]
+
+\* the process of job j has ended: the grace period that was running is over, the next one (if any)
+\* starts now at the latest
+OnProcessEnd(m, j, t) ==
+    LET g == GraceOf(m, j)
+        g2 == IF g.queued = <<>> THEN [g EXCEPT !.until = -1]
+              ELSE [until |-> t + Head(g.queued), queued |-> Tail(g.queued)]
+    IN  [m EXCEPT !.gr = (j :> g2) @@ @]
 
 Step(m0, r) ==
     IF r.e = "reset" THEN InitM
     ELSE
     LET m == [m0 EXCEPT !.t = r.t] IN
     CASE r.e = "jobop" ->
-            IF r.a \in Graceful
-            THEN [m EXCEPT !.pend = Append(@, [job |-> r.n, until |-> r.t + r.x])]
-            ELSE m
+            IF r.a \in Graceful THEN OnGraceful(m, r.n, r.t, r.x) ELSE m
       [] r.e = "ask_quit" ->
             IF m.asked >= 0 THEN m
-            ELSE LET jobs == {m.pend[i].job : i \in DOMAIN m.pend}
-                     extra == Max0({SumFor(m, j, r.t) : j \in jobs})
+            ELSE LET extra == Max0({OwedBy(m, j, r.t) : j \in DOMAIN m.gr})
                  IN  [m EXCEPT !.asked = r.t, !.manner = r.x, !.grace = r.n,
                                !.bound = IF r.x = 0 THEN r.t ELSE r.t + extra + r.n]
       [] r.e = "quit" ->
@@ -53,8 +72,8 @@ Step(m0, r) ==
       [] r.e = "spawn" ->
             LET m1 == [m EXCEPT !.alive = @ \cup {r.n}] IN
             IF m.mainEnd >= 0 THEN Bad(m1, "a process was spawned after the main task had ended") ELSE m1
-      [] r.e = "wait_ret" -> [m EXCEPT !.alive = @ \ {r.n}]
-      [] r.e = "drop" -> [m EXCEPT !.alive = @ \ {r.n}]
+      [] r.e \in {"wait_ret", "drop"} ->
+            IF r.n \in m.alive THEN [OnProcessEnd(m, JobOf(r.n), r.t) EXCEPT !.alive = @ \ {r.n}] ELSE m
       [] r.e = "main_end" ->
             LET m1 == [m EXCEPT !.mainEnd = r.t] IN
             IF m.asked < 0 THEN m1
